@@ -34,6 +34,8 @@ def jobs(tier):
     for lo in range(1, maxbits + 1, step):
         js.append(("job_randrange", dict(_name="unbiased_randrange width bits %d..%d, <=%d draws" % (lo, min(maxbits, lo + step - 1), D),
                                          lo=lo, hi=min(maxbits, lo + step - 1), draws=D)))
+    deep = 140 if tier == "quick" else 400
+    js.append(("job_randrange_deep", dict(_name="unbiased_randrange: up to %d consecutive rejections (1-byte range)" % deep, draws=deep)))
     for g in ("I1024", "I2048", "I3072", "toy11", "toy257", "toy1019", "sp61"):
         js.append(("job_group_scalar", dict(_name="IntegerGroup.random_scalar %s, <=%d draws" % (g, D), gname=g, draws=D)))
     js.append(("job_ed_scalar", dict(_name="ed25519 random_scalar")))
@@ -86,6 +88,33 @@ def job_randrange(J, lo, hi, draws):
                 z3.And(space == 2 ** bits, width.t <= space, 2 * width.t >= space), cex=cex, oracle="randrange")
         _draw_claims(J, r, ent, bits, nb, width.t, start.t, r.value, cex)
     J.stats["truncated"] += 0
+
+
+def job_randrange_deep(J, draws):
+    """long rejection chains: the k-th draw is treated exactly like the first (no try limit, no fallback, no state)"""
+    U = loader.MODS["util"]
+    J.bounds.update(width="3 (1 byte, 2 bits: a draw is rejected with probability 1/4)", max_draws=draws)
+    width = 3
+
+    def h(ctx):
+        ent = Entropy("e", max_calls=draws)
+        ctx.data["w"] = dict(ent=ent)
+        return U.unbiased_randrange(0, width, ent)
+    from symx.core import Ctx as _C
+    old = _C.MAX_DEPTH
+    _C.MAX_DEPTH = 20 * draws + 100
+    try:
+        res = J.explore(h, max_paths=draws + 5)
+    finally:
+        _C.MAX_DEPTH = old
+    for r in res:
+        ent = r.ctx.data["w"]["ent"]
+        cex = lambda m, ent=ent: dict(start=0, width=width, chunks=[b.model_bytes(m) for _, b in ent.calls])
+        if r.kind != "ret":
+            J.claim(r, "unbiased_randrange does not raise after %d draws (%s)" % (len(ent.calls), type(r.value).__name__), False,
+                    cex=cex, oracle="randrange", sample=False)
+            continue
+        _draw_claims(J, r, ent, 2, 1, z3.IntVal(width), z3.IntVal(0), r.value, cex)
 
 
 def job_group_scalar(J, gname, draws):
@@ -203,6 +232,11 @@ def oracle_randrange(start, width, chunks):
     from checks import common as C
     nb = (width.bit_length() + 7) // 8
     tests = [chunks]
+    bits_ = width.bit_length()
+    rej = (((1 << bits_) - 1) % (1 << (8 * nb))).to_bytes(nb, "big")
+    if ((1 << bits_) - 1) >= width:
+        for k in (10, 127, 128, 129, 300, 1000):         # long rejection chains, then an accepted draw
+            tests.append([rej] * k + [(width - 1).to_bytes(nb, "big")])
     # pool: boundary candidates (width-1 accepted, width / 2^bits-1 rejected then 0)
     bits = width.bit_length()
     for v in (width - 1, width, (1 << bits) - 1, (1 << (8 * nb)) - 1, 0):
